@@ -5,6 +5,7 @@ From AGH Require Export Base.Run Base.NetAddr Base.RuleEngine Model.Pipeline Mod
 From AGH Require Model.Rewrites.
 From AGH Require Model.ClientIndex Model.Schedule.
 From AGH Require Export Model.PipelineClients.
+From AGH Require Model.Protection Model.PipelineRefresh Model.Refresh Model.RuleListParser.
 Local Open Scope N_scope.
 
 (** A legacy rewrite as configured (domain, answer, what netip.ParseAddr made
@@ -34,7 +35,53 @@ Inductive qstep :=
   | QAsk (ss : list (bytes * N * ssverdict)) (q : request)
          (ups : list (bytes * option resp)) (up : option resp) (obs : outcome).
 
+(** Round 5.  One step of a history on a server whose protection switch is
+    operated through the web API (Model/Protection.v): a handler call or the
+    goroutine's wake-up, with whether the request was accepted; the raw pair
+    (flag, a deadline is set) read back afterwards; a status read at a
+    (virtual) instant with the reported "protection_enabled"; a query at an
+    instant with what the real pipeline did. *)
+Definition PSet := Protection.PSet.
+Definition PConf := Protection.PConf.
+Definition PRead := Protection.PRead.
+Definition PWake := Protection.PWake.
+Inductive prstep :=
+  | PrOp (o : Protection.pop) (accepted : bool)
+  | PrRaw (flag has_until : bool)
+  | PrStatus (now : Z) (enabled : bool)
+  | PrAsk (now : Z) (ss : list (bytes * N * ssverdict)) (q : request)
+          (ups : list (bytes * option resp)) (up : option resp) (obs : outcome).
+
+(** Round 5.  One step of a history on a server whose lists are refreshed
+    while their sources change and fail (Model/PipelineRefresh.v over C15's
+    Model/Refresh.v): a pass (which arrays, forced, what the source of every
+    list delivers; observed: the reported number of updated lists and, where
+    the caller sees it, the network-error flag), a set_url switch (observed:
+    accepted), the stored files as read from the disk, a query. *)
+Definition SrcFail := Refresh.OOpenErr.
+Definition SrcBody := Refresh.OBody.
+Inductive rfstep :=
+  | RfPass (block allow force : bool) (ocs : list (N * Refresh.outcome)) (obs_updated : N) (obs_net_err : option bool)
+  | RfSwitch (allow : bool) (url : N) (name : bytes) (enabled : bool) (o : Refresh.outcome) (obs_ok : bool)
+  | RfRebuild
+  | RfFiles (fs : list (N * option bytes))
+  | RfAsk (ss : list (bytes * N * ssverdict)) (q : request)
+          (ups : list (bytes * option resp)) (up : option resp) (obs : outcome).
+
 Inductive case :=
+  (* round 5: a whole history of protection switches, clock readings and
+     queries on one server: the rule lists stay as they are; every query
+     must get the outcome of Model/Pipeline.process for the configuration
+     Model/Protection.cfg_at yields at its instant *)
+  | CProt (c : cfg) (allow block : list rule) (sb par : list bytes)
+          (flag0 : bool) (until0 : option Z) (psteps : list prstep)
+  (* round 5: a whole history of refresh passes over changing and failing
+     sources: the user rules, the block and allow lists (model ID = number of
+     the source, name) as add_url left them after downloading [ocs0], the
+     table from stored texts to the rules urlfilter reads in them, then the
+     steps *)
+  | CRefresh (c : cfg) (user : list rule) (bl al : list (N * bytes)) (ocs0 : list (N * Refresh.outcome))
+             (texts : list (bytes * list rule)) (sb par : list bytes) (rsteps : list rfstep)
   (* a whole history over one server behind the queue of pending engine
      rebuilds: the lists, flags and custom rules at the start (engines built
      from them, loop idle), then the steps; every query must get the outcome
@@ -226,6 +273,84 @@ Fixpoint run_queue (cf : cfg) (sb par : list bytes) (s : pstate) (steps : list q
       (m, obs, outcome_eqb m obs) :: run_queue cf sb par s rest
   end.
 
+(** Replays a protection history. *)
+Definition prot_ask (cf : cfg) (allow block : list rule) (sb par : list bytes) (s : Protection.prot) (now : Z)
+    ss q ups up : outcome :=
+  process (match_request allow) (match_request block)
+          (fun h => mem_bytes h sb) (fun h => mem_bytes h par) (ss_lookup ss) Rewrites.isort
+          (Protection.cfg_at cf s now) (scripted ups up) q.
+
+Definition is_some {A} (o : option A) : bool := match o with Some _ => true | None => false end.
+
+Definition pop_accepted (o : Protection.pop) : bool :=
+  match o with Protection.PSet _ en dur => Protection.set_accepted en dur | _ => true end.
+
+Fixpoint run_prot (cf : cfg) (allow block : list rule) (sb par : list bytes) (s : Protection.prot)
+    (steps : list prstep) : list (outcome * outcome * bool) :=
+  match steps with
+  | nil => nil
+  | PrOp o acc :: rest =>
+      (empty_outcome, empty_outcome, Bool.eqb (pop_accepted o) acc)
+        :: run_prot cf allow block sb par (Protection.step_now s o) rest
+  | PrRaw f u :: rest =>
+      (empty_outcome, empty_outcome,
+       Bool.eqb (Protection.pr_flag s) f && Bool.eqb (is_some (Protection.pr_until s)) u)
+        :: run_prot cf allow block sb par s rest
+  | PrStatus now en :: rest =>
+      (empty_outcome, empty_outcome, Bool.eqb (Protection.in_force now s) en)
+        :: run_prot cf allow block sb par (snd (Protection.read now s)) rest
+  | PrAsk now ss q ups up obs :: rest =>
+      let m := prot_ask cf allow block sb par s now ss q ups up in
+      (m, obs, outcome_eqb m obs) :: run_prot cf allow block sb par (snd (Protection.read now s)) rest
+  end.
+
+(** Replays a refresh history. *)
+Definition oc_of (ocs : list (N * Refresh.outcome)) (i : N) : Refresh.outcome :=
+  match find (fun e => fst e =? i) ocs with Some e => snd e | None => Refresh.OOpenErr end.
+
+Definition rules_in (texts : list (bytes * list rule)) (c : bytes) : list rule :=
+  match assoc_bytes texts c with Some rs => rs | None => nil end.
+
+(** Every text in force is one the harness has named the rules of. *)
+Definition texts_known (texts : list (bytes * list rule)) (e : Refresh.engine) : bool :=
+  forallb (fun x => is_some (assoc_bytes texts (snd x))) (Refresh.e_block e ++ Refresh.e_allow e).
+
+Definition crc := RuleListParser.crc32_update.
+
+Definition refresh_ask (cf : cfg) (user : list rule) (texts : list (bytes * list rule)) (sb par : list bytes)
+    (st : Refresh.rstate) ss q ups up : outcome :=
+  PipelineRefresh.ask_r (rules_in texts) (fun h => mem_bytes h sb) (fun h => mem_bytes h par) (ss_lookup ss)
+                        Rewrites.isort user st cf (scripted ups up) q.
+
+Fixpoint run_refresh (cf : cfg) (user : list rule) (texts : list (bytes * list rule)) (sb par : list bytes)
+    (st : Refresh.rstate) (steps : list rfstep) : list (outcome * outcome * bool) :=
+  match steps with
+  | nil => nil
+  | RfPass b a f ocs n ne :: rest =>
+      let oc := oc_of ocs in
+      let mne := Refresh.pass_net_error crc b a f PipelineRefresh.all_due oc st in
+      let mn := if mne then 0 else Refresh.pass_updated crc b a f PipelineRefresh.all_due oc st in
+      (empty_outcome, empty_outcome,
+       (mn =? n) && match ne with Some x => Bool.eqb x mne | None => true end)
+        :: run_refresh cf user texts sb par (PipelineRefresh.rop_step crc st (PipelineRefresh.RPass b a f oc)) rest
+  | RfSwitch a u name en o ok :: rest =>
+      let r := Refresh.set_props crc a u name u en o st in
+      (empty_outcome, empty_outcome, Bool.eqb (negb (snd (fst r))) ok)
+        :: run_refresh cf user texts sb par (snd r) rest
+  | RfRebuild :: rest => run_refresh cf user texts sb par (Refresh.rebuild_now st) rest
+  | RfFiles fs :: rest =>
+      (empty_outcome, empty_outcome,
+       forallb (fun x => eqb_option eqb_bytes (Refresh.fget (fst x) (Refresh.r_files st)) (snd x)) fs)
+        :: run_refresh cf user texts sb par st rest
+  | RfAsk ss q ups up obs :: rest =>
+      let m := refresh_ask cf user texts sb par st ss q ups up in
+      (m, obs, texts_known texts (Refresh.r_engine st) && outcome_eqb m obs)
+        :: run_refresh cf user texts sb par st rest
+  end.
+
+Definition refresh_start (bl al : list (N * bytes)) (ocs0 : list (N * Refresh.outcome)) : Refresh.rstate :=
+  PipelineRefresh.start_state crc bl al (oc_of ocs0).
+
 (** What the model computes for the first query of the history on which it
     disagrees with the observation (for replay files), else for the last one. *)
 Definition lists_explain (l : list (outcome * outcome * bool)) : outcome :=
@@ -280,6 +405,10 @@ Definition model (c : case) : outcome :=
   | CHttp _ _ _ _ _ => empty_outcome
   | CLists cf st sb par steps => lists_explain (run_lists cf sb par st steps)
   | CQueue cf st sb par steps => lists_explain (run_queue cf sb par (pinit st) steps)
+  | CProt cf allow block sb par f0 u0 steps =>
+      lists_explain (run_prot cf allow block sb par (Protection.prot_init f0 u0) steps)
+  | CRefresh cf user bl al ocs0 texts sb par steps =>
+      lists_explain (run_refresh cf user texts sb par (refresh_start bl al ocs0) steps)
   | CPipe cf allow block sb par ss q ups up _
   | CRepeat cf allow block sb par ss q ups up _ =>
       process (match_request allow) (match_request block)
@@ -297,6 +426,10 @@ Definition case_ok (c : case) : bool :=
   | CHttp gf block tags ops probes => http_ok (http_cfg gf) block tags ops probes
   | CLists cf st sb par steps => forallb (fun x => snd x) (run_lists cf sb par st steps)
   | CQueue cf st sb par steps => forallb (fun x => snd x) (run_queue cf sb par (pinit st) steps)
+  | CProt cf allow block sb par f0 u0 steps =>
+      forallb (fun x => snd x) (run_prot cf allow block sb par (Protection.prot_init f0 u0) steps)
+  | CRefresh cf user bl al ocs0 texts sb par steps =>
+      forallb (fun x => snd x) (run_refresh cf user texts sb par (refresh_start bl al ocs0) steps)
   | CPipe _ _ _ _ _ _ _ _ _ obs => outcome_eqb (model c) obs
   | CRepeat _ _ _ _ _ _ _ _ _ obs => repeat_eqb (model c) obs
   end.
